@@ -83,21 +83,24 @@ impl<P: DepOrder> DepOrderer<P> {
 //|             && final(self).seen@.contains(*item)),
 //|             // the cycle detector: re-entering an item whose dependencies are still being visited is an error
 //|             (old(self).pending@.contains(*item) && !old(self).seen@.contains(*item)) ==> r is Err,
-//@   before /Depth-first search dependent/
+//@   atstart
+//|         // the state after the dependencies were processed (set there); the closing argument sits at the end of the function so that it does not
+//|         // depend on the order of the last statements
+//|         let ghost mut after = *self;
 //|         proof {
 //|             assert forall|a: &P::Item, b: P::Item| #[trigger] call_ensures(<P::Item as Clone>::clone, (a,), b) implies *a == b by { P::clone_faithful(*a, b); }
 //|         }
 //@   after /self\.pending\.insert\(item\.clone\(\)\);/
 //|             proof { assert(self.pending@ == old(self).pending@.insert(*item)); }
 //@   after /P::process\(item, self\)\?;/
-//|             let ghost after = *self;
+//|             proof { after = *self; }
 //@   before1 /And insert the Item itself|self\.seen\.insert\(item\.clone\(\)\);/
 //|             proof {
 //|                 assert(self.pending@ =~= old(self).pending@);
 //|                 assert(!after.seen@.contains(*item));
 //|             }
-//@   after /self\.stack\.push\(item\.clone\(\)\);/
-//|             proof {
+//@   before /^        Ok\(\(\)\)$/
+//|             proof { if !old(self).seen@.contains(*item) {
 //|                 let s2 = after.stack@;
 //|                 let s3 = self.stack@;
 //|                 assert(s3 == s2.push(*item));
@@ -119,7 +122,7 @@ impl<P: DepOrder> DepOrderer<P> {
 //|                     }
 //|                 }
 //|                 assert(old(self).stack@.is_prefix_of(s3)) by { assert(old(self).stack@.is_prefix_of(s2)); }
-//|             }
+//|             } }
 //@ end
 }
 
